@@ -123,6 +123,69 @@ def labels_of(evs, producers, per, workers):
     return labels, len(wmap)
 
 
+def run_batches(oc, r, which, exe, scen, B, env, reqs, pend):
+    """scenarios in batches so that a hang / crash is attributed to few scenarios"""
+    for b in range(0, len(scen), B):
+        batch = scen[b:b + B]
+        lines = [" ".join(str(x) for x in s) for s in batch]
+        try:
+            p = subprocess.run([exe], input="\n".join(lines) + "\n", capture_output=True, text=True, timeout=(120 if which == "tsan" else 60), env=dict(os.environ, **env))
+            rc, out, err = p.returncode, p.stdout.splitlines(), p.stderr
+        except subprocess.TimeoutExpired as e:
+            out = (e.stdout or b"").decode(errors="replace").splitlines() if isinstance(e.stdout, bytes) else (e.stdout or "").splitlines()
+            hung = batch[len(out)] if len(out) < len(batch) else batch[-1]
+            oc.violations.append(dict(what="scenario did not terminate within the deadline (deadlock / waiter not released) [%s build]" % which, scenario=list(hung), batch=lines, build=which))
+            break
+        if "ThreadSanitizer" in err:
+            oc.violations.append(dict(what="ThreadSanitizer report: %s" % tsan_summary(err), batch=lines, stderr=err[-2500:]))
+            break
+        if rc != 0:
+            oc.violations.append(dict(what="probe crashed (exit %d) after %d of %d scenarios: %s" % (rc, len(out), len(batch), err[-400:]), batch=lines))
+            break
+        for s, line in zip(batch, out):
+            if s[0] == "Q":
+                _, consumers, items, seed = s
+                fl = dict(kv.split("=") for kv in line.partition("|")[2].split())
+                oc.case(("Q", consumers, items, seed), nontrivial=items >= 2)
+                oc.stat("queue_consumers_%d" % consumers)
+                if int(fl["released"]) != consumers:
+                    oc.violations.append(dict(what="wake_up() released %s of %d waiting consumers" % (fl["released"], consumers), scenario=list(s)))
+                if int(fl["got"]) != items:
+                    oc.violations.append(dict(what="queue delivered %s of %d items" % (fl["got"], items), scenario=list(s)))
+                continue
+            _, producers, per, workers, seed, mode = s
+            evs, fl = parse_log(line)
+            if evs is None:
+                raise common.Infra("unparsable probe output: " + line[:200])
+            oc.case(("D", line), nontrivial=producers * per >= 2)
+            oc.stat("build_" + which)
+            oc.stat("workers_%d" % workers)
+            oc.stat("producers_%d" % producers)
+            oc.stat("mode_%d" % mode)
+            hs = [(e[1], e[2]) for e in evs if e[0] == "h"]
+            if mode == 1 and len(hs) < producers * per:
+                oc.stat("destroyed_with_items_outstanding")
+            if ("X",) in evs and any(e[0] == "e" for e in evs[evs.index(("X",)):]):
+                oc.stat("destroyed_while_handler_running")
+            vs = oracle(evs, fl, producers, per, workers, mode)
+            info = dict(scenario=list(s), log=line)
+            for v in vs:
+                oc.violations.append(dict(what=v, **info))
+            if not vs:
+                labels, nw_seen = labels_of(evs, producers, per, workers)
+                if labels is None:
+                    oc.stat("replay_skipped_discarded_item_precedes_handled_one")
+                    if workers == 1:
+                        oc.corr_failures.append(dict(what="single worker handled an item after skipping an earlier one of the same producer: not a run of Model/Conc", **info))
+                    continue
+                reqs.append(dict(cmd="conc", totals=[per] * producers, nworkers=workers, labels=labels))
+                pend.append((info, hs, producers * per, labels))
+            if len(oc.samples) < 2:
+                oc.samples.append(info)
+        if oc.violations:
+            break
+
+
 def tsan_summary(err):
     m = re.findall(r"WARNING: ThreadSanitizer: ([^\n]*)\n(?:.*\n){0,12}", err)
     return m[:3]
@@ -152,6 +215,11 @@ def run(tier):
         ok, msg = cppprobe.build(exe, [os.path.join(cppprobe.PROBES, "dispatch_stress.cpp")], flags)
         if not ok:
             raise common.Infra("dispatch_stress.cpp does not build: " + msg)
+        exe2 = os.path.join(base, "stress_widen")
+        flags2 = ["-O1", "-g", "-DTHREADED", "-DPROBE_WIDEN_CONDWAIT", "-rdynamic"] + (["-DPROBE_CALLS_STOP"] if impl_calls_stop and has_stop else [])
+        ok, msg = cppprobe.build(exe2, [os.path.join(cppprobe.PROBES, "dispatch_stress.cpp"), "-ldl"], flags2)
+        if not ok:
+            raise common.Infra("dispatch_stress.cpp (widened cond-wait build) does not build: " + msg)
         scen = []
         n = 700 if thorough else 120
         for k in range(n):
@@ -162,65 +230,18 @@ def run(tier):
             scen.append(("D", producers, per, workers, r.randrange(1 << 30), mode))
         for k in range(n // 4):
             scen.append(("Q", r.choice([1, 2, 3, 4]), r.choice([0, 1, 3, 9]), r.randrange(1 << 30)))
-        # scenarios in batches so that a hang / crash is attributed to few scenarios
-        B = 10
+        # second build: the window between a wait predicate and the actual blocking is widened (no sanitizer)
+        scen2 = []
+        for k in range(n // 3):
+            if r.random() < 0.5:
+                scen2.append(("Q", r.choice([1, 2, 3, 4]), r.choice([0, 1, 3]), r.randrange(1 << 30)))
+            else:
+                scen2.append(("D", r.choice([1, 2]), r.choice([0, 1, 2, 3]), r.choice([1, 1, 2]), r.randrange(1 << 30), r.choice([0, 1])))
         env = {"TSAN_OPTIONS": "halt_on_error=0:exitcode=66:second_deadlock_stack=1"}
-        for b in range(0, len(scen), B):
-            batch = scen[b:b + B]
-            lines = [" ".join(str(x) for x in s) for s in batch]
-            try:
-                p = subprocess.run([exe], input="\n".join(lines) + "\n", capture_output=True, text=True, timeout=120, env=dict(os.environ, **env))
-                rc, out, err = p.returncode, p.stdout.splitlines(), p.stderr
-            except subprocess.TimeoutExpired as e:
-                out = (e.stdout or b"").decode(errors="replace").splitlines() if isinstance(e.stdout, bytes) else (e.stdout or "").splitlines()
-                hung = batch[len(out)] if len(out) < len(batch) else batch[-1]
-                oc.violations.append(dict(what="scenario did not terminate within the deadline (deadlock / waiter not released)", scenario=list(hung), batch=lines))
+        for which, binary, todo, B in (("tsan", exe, scen, 10), ("widened-condwait", exe2, scen2, 5)):
+            run_batches(oc, r, which, binary, todo, B, env, reqs, pend)
+            if oc.violations:
                 break
-            if "ThreadSanitizer" in err:
-                oc.violations.append(dict(what="ThreadSanitizer report: %s" % tsan_summary(err), batch=lines, stderr=err[-2500:]))
-                break
-            if rc != 0:
-                oc.violations.append(dict(what="probe crashed (exit %d) after %d of %d scenarios: %s" % (rc, len(out), len(batch), err[-400:]), batch=lines))
-                break
-            for s, line in zip(batch, out):
-                if s[0] == "Q":
-                    _, consumers, items, seed = s
-                    fl = dict(kv.split("=") for kv in line.partition("|")[2].split())
-                    oc.case(("Q", consumers, items, seed), nontrivial=items >= 2)
-                    oc.stat("queue_consumers_%d" % consumers)
-                    if int(fl["released"]) != consumers:
-                        oc.violations.append(dict(what="wake_up() released %s of %d waiting consumers" % (fl["released"], consumers), scenario=list(s)))
-                    if int(fl["got"]) != items:
-                        oc.violations.append(dict(what="queue delivered %s of %d items" % (fl["got"], items), scenario=list(s)))
-                    continue
-                _, producers, per, workers, seed, mode = s
-                evs, fl = parse_log(line)
-                if evs is None:
-                    raise common.Infra("unparsable probe output: " + line[:200])
-                oc.case(("D", line), nontrivial=producers * per >= 2)
-                oc.stat("workers_%d" % workers)
-                oc.stat("producers_%d" % producers)
-                oc.stat("mode_%d" % mode)
-                hs = [(e[1], e[2]) for e in evs if e[0] == "h"]
-                if mode == 1 and len(hs) < producers * per:
-                    oc.stat("destroyed_with_items_outstanding")
-                if ("X",) in evs and any(e[0] == "e" for e in evs[evs.index(("X",)):]):
-                    oc.stat("destroyed_while_handler_running")
-                vs = oracle(evs, fl, producers, per, workers, mode)
-                info = dict(scenario=list(s), log=line)
-                for v in vs:
-                    oc.violations.append(dict(what=v, **info))
-                if not vs:
-                    labels, nw_seen = labels_of(evs, producers, per, workers)
-                    if labels is None:
-                        oc.stat("replay_skipped_discarded_item_precedes_handled_one")
-                        if workers == 1:
-                            oc.corr_failures.append(dict(what="single worker handled an item after skipping an earlier one of the same producer: not a run of Model/Conc", **info))
-                        continue
-                    reqs.append(dict(cmd="conc", totals=[per] * producers, nworkers=workers, labels=labels))
-                    pend.append((info, hs, producers * per, labels))
-                if len(oc.samples) < 2:
-                    oc.samples.append(info)
             if oc.violations:
                 break
     for (info, hs, total, labels), ans in zip(pend, lean_batch(reqs)):
